@@ -9,7 +9,7 @@ ASSUMPTIONS = [
     'formatting stub: xtuml.Class.__str__ replaced by a constant (exception messages stringify instances)',
     'identifying values are symbolic, unbounded, positive',
 ]
-SHAPES = ['1C_MC', '1_M', '1C_1C', '1_1_phr', 'refl', 'refl_M', 'assoc', 'assoc_1', 'subsuper', 'two_rels', 'comp_key']
+SHAPES = ['1C_MC', '1_M', '1C_1C', '1_1_phr', 'refl', 'refl_M', 'assoc', 'assoc_1', 'subsuper', 'two_rels', 'comp_key', 'int_key']
 OPS = ['relate_st', 'relate_ts', 'unrelate_st', 'unrelate_ts', 'relate_unrelate', 'delete_s', 'delete_t',
        'relate_badrel', 'unrelate_badrel', 'relate_badphrase', 'unrelate_badphrase', 'relate_none',
        'unrelate_none', 'relate_wrongkinds', 'new', 'relate_nophrase', 'unrelate_nophrase']
